@@ -40,9 +40,11 @@ def run(ctx):
     # ... and members whose user-database entry is longer than the daemon's initial lookup buffer (the lookup must be
     # repeated with a larger buffer, not answered from what the previous lookup left behind)
     db = {"groups": [(700, ["ann", "bob"]), (701, ["cat"]), (700, ["dan"]), (702, []), (0, ["eve"]), (703, ["ghost", "ann2"]),
-                     (704, ["fay", "longbob", "gus", "longest"]), (706, ["3999", "3002", "cat"])],   # all-digit names nobody bears
+                     (704, ["fay", "longbob", "gus", "longest"]), (706, ["3999", "3002", "cat"]),   # all-digit names nobody bears
+                     (708, ["hx"]), (709, ["hy", "hz"])],   # members whose uids share a slot of the uid->groups table with uids that have no groups
           "users": [("ann", 3001), ("bob", 3002), ("cat", 3003), ("dan", 3004), ("eve", 3005), ("ann2", 3001), ("root", 0),
-                    ("fay", 3011), ("longbob", 3010, 3000), ("gus", 3012), ("longest", 3013, 70000)]}
+                    ("fay", 3011), ("longbob", 3010, 3000), ("gus", 3012), ("longest", 3013, 70000),
+                    ("hx", 3999 + 2053), ("hy", 3999 + 2 * 2053), ("hz", 3005 + 2053)]}
     pw = {}
     for ent in db["users"]:
         pw.setdefault(ent[0], ent[1])
@@ -58,7 +60,7 @@ def run(ctx):
     time.sleep(0.4)   # initial group map load runs on the timer thread
     clients = [(3001, 50), (3002, 700), (3004, 51), (3003, 52), (0, 0), (3999, 53), (0, 700), (3010, 55), (3011, 56), (3013, 57), (3005, 54)]
     if not ctx.thorough:
-        clients = clients[:10]
+        clients = clients[:10] + [(3005, 54)]
     T0 = 1600000000
     fails, mism = [], []
     states = ["fresh", "expired", "rewound", "decoded"]
@@ -66,7 +68,9 @@ def run(ctx):
     n = 0
     for (cu, cg) in clients:
         for au in (ANY, cu, 3002 if cu != 3002 else 3001, 0):
-            for ag in (ANY, cg, 700, 701, 704, 706, 0):
+            # ... incl. the gid that equals the client's UID number (the shim's passwd entries carry pw_gid = pw_uid: the gid field of
+            # the client's OWN passwd line is not a membership) and groups whose members sit in the client's slot of the uid table
+            for ag in (ANY, cg, 700, 701, 704, 706, 0) + ((cu,) if cu not in (cg, 0) else ()) + ((708, 709) if cu in (3999, 3005) else ()):
                 for state in states:
                     n += 1
                     if not ctx.thorough and state != "fresh" and (n % 3):
